@@ -440,8 +440,9 @@ theorem checkParams_ok_iff (d : Doc) : ∀ anns, checkParams d anns = .ok ↔ Pa
         (∃ p, d.params.filter (fun p => p.name == n) = [p] ∧ ∃ v, p.ty = .parsed v ∧ annEq a v = true) ∧ ParamsOk d rest := by
       simp [ParamsOk]
     rw [hcons, ← ih]
+    have hlk : paramLookupIsNameEquality = true := by decide
     simp only [checkParams, returnBranch_spec, paramBranch_spec, Bool.false_and, Bool.false_eq_true, ↓reduceIte,
-      Bool.not_false, matchBad_spec]
+      Bool.not_false, matchBad_spec, hlk, Bool.not_true]
     generalize hm : d.params.filter (fun p => p.name == n) = m
     rcases m with _ | ⟨p, _ | ⟨q, more⟩⟩
     · simp [excMatch]
@@ -655,7 +656,7 @@ def DT.clean : DT → Bool
   | _ => true
 
 def Evaluable (d : Doc) : Prop :=
-  (∀ p ∈ d.params, p.ty.clean = true) ∧ (∀ n ty, d.returns = some (n, ty) → ty.clean = true ∧ ty.isUntyped = false)
+  (∀ p ∈ d.params, p.ty.clean = true) ∧ (∀ n ty, d.returns = some (n, ty) → ty.clean = true ∧ (n = 2 → ty.isUntyped = false))
 
 theorem parseOut_clean (ty : DT) (hc : ty.clean = true) (hu : ty.isUntyped = false) (o : Out) (h : parseOut ty = .error o) :
     o = docExc := by
@@ -682,6 +683,7 @@ theorem checkReturn_cases (f : FnD) (d : Doc) (he : Evaluable d) (hc : d.returns
       simp only [returnBranch_spec, Option.isNone_some, Bool.not_false, Bool.and_self, ↓reduceIte, returnArgsBad_spec]
       by_cases hn : n = 2
       · subst hn
+        have hun := hun rfl
         have hidx : ¬ (2 ≤ returnTypeIndex) := by decide
         simp only [ne_eq, not_true_eq_false, decide_false, Bool.false_eq_true, ↓reduceIte, hidx, returnTypeBad_spec]
         cases hp : parseOut ty with
@@ -696,8 +698,9 @@ theorem checkParams_cases (d : Doc) (he : ∀ p ∈ d.params, p.ty.clean = true)
   | nil => simp [checkParams]
   | cons na rest ih =>
     obtain ⟨n, a⟩ := na
+    have hlk : paramLookupIsNameEquality = true := by decide
     simp only [checkParams, returnBranch_spec, paramBranch_spec, Bool.false_and, Bool.false_eq_true, ↓reduceIte,
-      Bool.not_false, matchBad_spec]
+      Bool.not_false, matchBad_spec, hlk, Bool.not_true]
     generalize hm : d.params.filter (fun p => p.name == n) = m
     rcases m with _ | ⟨p, _ | ⟨q, more⟩⟩
     · simp [excMatch]
@@ -749,6 +752,23 @@ theorem every_rejection_is_docstring_exception_full_fails : ¬ every_rejection_i
   have := h ⟨[(100, .cls sInt)], some Option.none, .text⟩ ⟨[⟨100, .evalError .systemExit⟩], Option.none⟩
   revert this
   decide
+
+/-- the Returns half of `Evaluable` also excludes a Returns entry that `docstring_parser` reports with two `args` but WITHOUT a type
+    (`doc.returns.args[1] is None`): in the model `'typing.' in None` raises a TypeError outside the `try`, which leaves the decorator
+    as it is.  docstring_parser 0.16 never produces that shape (two `args` only when it recognised `<type>: …`); the conjunct keeps the
+    theorem true for every `Doc`, this is the witness that it cannot be dropped -/
+theorem untyped_returns_with_two_args_escapes :
+    checkDocstring ⟨[], some (some (.cls sInt)), .text⟩ ⟨[], some (2, .untyped)⟩ = .escaped .typeError := by decide
+
+/-- **recorded region — `docstring_parser` not installed**: the theorems below that conclude a rejection (`required_missing_docstring`,
+    `accepted_consistent`, `class_accepts_iff`, …) assume `parserInstalled = true`.  Without the package `decorated_func.docstring` is
+    None, the trigger is false whatever `require_docstring` says, and NOTHING is checked: `pedantic_require_docstring` returns the
+    wrapper for every function and every docstring — also for a missing one.  (Assumption of the check: the package is installed.) -/
+theorem require_without_parser_checks_nothing (f : FnD) (d : Doc) : decorator ⟨true, false⟩ true f d = .wrapper := by
+  unfold decorator
+  simp [trigger_spec]
+
+example : decoratorRequire ⟨true, false⟩ ⟨[], Option.none, .none⟩ ⟨[], Option.none⟩ = .wrapper := by decide
 
 /-- **a required but missing docstring** raises PedanticDocstringException (`pedantic_require_docstring`) -/
 theorem required_missing_docstring (env : Env) (f : FnD) (d : Doc) (hen : env.enabled = true)
@@ -818,11 +838,11 @@ theorem raised_only_by_check (env : Env) (req : Bool) (f : FnD) (d : Doc) (o : O
     the module's namespace `ns` (the author's reading) -/
 def ctxFaithful (ns : Ctx) (f : FnD) (i : Intended) : Bool :=
   i.params.all (fun p => f.anns.all (fun na => na.1 != p.name ||
-    (typeMatches na.2 (parseDocumentedType (ctxAt (ctxAfterReturn f) p.name f.anns) p.ty).meaning ==
+    (typeMatches na.2 (parseDocumentedType (ctxAt (ctxStart ns f) p.name f.anns) p.ty).meaning ==
      typeMatches (resolveAnn ns na.2) (meaningIn ns p.ty)))) &&
   (match returnedType f, i.returns with
    | some r, some (some t) =>
-     typeMatches r (parseDocumentedType (ctxAfterReturn f) (some t)).meaning == typeMatches (resolveAnn ns r) (meaningIn ns (some t))
+     typeMatches r (parseDocumentedType (ctxStart ns f) (some t)).meaning == typeMatches (resolveAnn ns r) (meaningIn ns (some t))
    | _, _ => true)
 
 theorem filter_len_map (ps : List RawParam) (g h : RawParam → Option Val) (n : Sym) :
@@ -837,24 +857,24 @@ theorem filter_len_map (ps : List RawParam) (g h : RawParam → Option Val) (n :
 /-- under the guard, the model's view of the parsed docstring and the author's view of the written docstring are
     consistent with the signature at the same time -/
 theorem views_agree (ns : Ctx) (f : FnD) (i : Intended) (h : ctxFaithful ns f i = true) :
-    Consistent f (sdocOf f (annotate f (rawOf i))) ↔ Consistent (resolveSig ns f) (specDoc ns f i) := by
+    Consistent f (sdocOf f (annotate ns f (rawOf i))) ↔ Consistent (resolveSig ns f) (specDoc ns f i) := by
   simp only [ctxFaithful, Bool.and_eq_true, List.all_eq_true, Bool.or_eq_true, bne_iff_ne, ne_eq, beq_iff_eq] at h
   obtain ⟨hpar, hret⟩ := h
   have hpar' : ∀ p ∈ i.params, ∀ na ∈ f.anns, na.1 = p.name →
-      typeMatches na.2 (parseDocumentedType (ctxAt (ctxAfterReturn f) p.name f.anns) p.ty).meaning =
+      typeMatches na.2 (parseDocumentedType (ctxAt (ctxStart ns f) p.name f.anns) p.ty).meaning =
         typeMatches (resolveAnn ns na.2) (meaningIn ns p.ty) := by
     intro p hp na hna hn
     rcases hpar p hp na hna with h | h
     · exact absurd hn h
     · exact h
   unfold Consistent
-  have e1 : (sdocOf f (annotate f (rawOf i))).present = (specDoc ns f i).present := rfl
-  have e2 : ∀ n, ((sdocOf f (annotate f (rawOf i))).params.filter (fun p => p.name == n)).length =
+  have e1 : (sdocOf f (annotate ns f (rawOf i))).present = (specDoc ns f i).present := rfl
+  have e2 : ∀ n, ((sdocOf f (annotate ns f (rawOf i))).params.filter (fun p => p.name == n)).length =
       ((specDoc ns f i).params.filter (fun p => p.name == n)).length := by
     intro n
     simp only [sdocOf, annotate, rawOf, specDoc, List.map_map]
     exact filter_len_map i.params _ _ n
-  have e3 : (∀ p ∈ (sdocOf f (annotate f (rawOf i))).params, ∃ na ∈ f.anns, na.1 = p.name ∧ typeMatches na.2 p.ty = true) ↔
+  have e3 : (∀ p ∈ (sdocOf f (annotate ns f (rawOf i))).params, ∃ na ∈ f.anns, na.1 = p.name ∧ typeMatches na.2 p.ty = true) ↔
       (∀ p ∈ (specDoc ns f i).params, ∃ na ∈ (resolveSig ns f).anns, na.1 = p.name ∧ typeMatches na.2 p.ty = true) := by
     simp only [sdocOf, annotate, rawOf, specDoc, resolveSig, List.map_map, List.mem_map, Function.comp]
     constructor
@@ -868,7 +888,7 @@ theorem views_agree (ns : Ctx) (f : FnD) (i : Intended) (h : ctxFaithful ns f i 
       refine ⟨na, hna, hn, ?_⟩
       simp only at hn ht ⊢
       rw [hpar' q hq na hna hn]; exact ht
-  have e4 : returnsOk f (sdocOf f (annotate f (rawOf i))) = returnsOk (resolveSig ns f) (specDoc ns f i) := by
+  have e4 : returnsOk f (sdocOf f (annotate ns f (rawOf i))) = returnsOk (resolveSig ns f) (specDoc ns f i) := by
     have hrt : returnedType (resolveSig ns f) = (returnedType f).map (resolveAnn ns) := by
       unfold returnedType resolveSig
       rcases f.ret with _ | _ | r <;> rfl
@@ -893,7 +913,7 @@ theorem views_agree (ns : Ctx) (f : FnD) (i : Intended) (h : ctxFaithful ns f i 
     exact b (na.1, resolveAnn ns na.2) (by simp only [resolveSig, List.mem_map]; exact ⟨na, hna, rfl⟩)
 
 theorem applies_views (req : Bool) (ns : Ctx) (f : FnD) (i : Intended) :
-    Applies req (sdocOf f (annotate f (rawOf i))) ↔ Applies req (specDoc ns f i) := by
+    Applies req (sdocOf f (annotate ns f (rawOf i))) ↔ Applies req (specDoc ns f i) := by
   unfold Applies sdocOf annotate rawOf specDoc
   cases i.params <;> simp
 
@@ -901,22 +921,22 @@ theorem applies_views (req : Bool) (ns : Ctx) (f : FnD) (i : Intended) :
     namespace) -/
 def C19_full : Prop :=
   ∀ (req : Bool) (f : FnD) (i : Intended) (r : RawDocstring) (ns : Ctx), SigOk f → Applies req (specDoc ns f i) →
-    (decorateRaw ⟨true, true⟩ req f r = .wrapper ↔ Consistent (resolveSig ns f) (specDoc ns f i)) ∧
-    (decorateRaw ⟨true, true⟩ req f r = .wrapper ∨ decorateRaw ⟨true, true⟩ req f r = .raised docExc)
+    (decorateRaw ⟨true, true⟩ req ns f r = .wrapper ↔ Consistent (resolveSig ns f) (specDoc ns f i)) ∧
+    (decorateRaw ⟨true, true⟩ req ns f r = .wrapper ∨ decorateRaw ⟨true, true⟩ req ns f r = .raised docExc)
 
 /-- **C19, proved part**: if `docstring_parser` returns the docstring as written (`r = rawOf i`), the evaluation context
     is faithful and no documented "type" raises a BaseException, then decoration succeeds iff the written docstring is
     consistent with the signature, and otherwise raises PedanticDocstringException -/
 theorem C19_partial (req : Bool) (f : FnD) (i : Intended) (ns : Ctx) (hs : SigOk f)
-    (hg : ctxFaithful ns f i = true) (he : Evaluable (annotate f (rawOf i))) (happ : Applies req (specDoc ns f i)) :
-    (decorateRaw ⟨true, true⟩ req f (rawOf i) = .wrapper ↔ Consistent (resolveSig ns f) (specDoc ns f i)) ∧
-    (decorateRaw ⟨true, true⟩ req f (rawOf i) = .wrapper ∨ decorateRaw ⟨true, true⟩ req f (rawOf i) = .raised docExc) := by
+    (hg : ctxFaithful ns f i = true) (he : Evaluable (annotate ns f (rawOf i))) (happ : Applies req (specDoc ns f i)) :
+    (decorateRaw ⟨true, true⟩ req ns f (rawOf i) = .wrapper ↔ Consistent (resolveSig ns f) (specDoc ns f i)) ∧
+    (decorateRaw ⟨true, true⟩ req ns f (rawOf i) = .wrapper ∨ decorateRaw ⟨true, true⟩ req ns f (rawOf i) = .raised docExc) := by
   have happ' := (applies_views req ns f i).mpr happ
   refine ⟨?_, ?_⟩
   · unfold decorateRaw
     rw [accepts_iff_consistent ⟨true, true⟩ req f _ rfl rfl hs happ', views_agree ns f i hg]
   · unfold decorateRaw
-    by_cases hc : Consistent f (sdocOf f (annotate f (rawOf i)))
+    by_cases hc : Consistent f (sdocOf f (annotate ns f (rawOf i)))
     · left; exact consistent_accepted _ req f _ rfl hs hc
     · right; exact (raised_at_decoration ⟨true, true⟩ req f _ rfl rfl hs happ' hc).2 he
 
@@ -928,7 +948,7 @@ example :
     let f : FnD := ⟨[(2000, .union false [.cls 1000, .cls sNoneType])], some (some (.union true [.cls sInt, .cls sNoneType])), .text⟩
     let i : Intended := ⟨[⟨2000, some ⟨"Optional[My]", some (.sub (.name 25) [.name 1000])⟩⟩],
       some (some ⟨"Optional[int]", some (.sub (.name 25) [.name 0])⟩)⟩
-    ctxFaithful [(1000, .cls 1000)] f i = true ∧ decorateRaw ⟨true, true⟩ false f (rawOf i) = .wrapper ∧
+    ctxFaithful [(1000, .cls 1000)] f i = true ∧ decorateRaw ⟨true, true⟩ false [(1000, .cls 1000)] f (rawOf i) = .wrapper ∧
     Applies false (specDoc [(1000, .cls 1000)] f i) := by decide
 
 /-! ### the open region: `docstring_parser` does not return the Returns entry as written -/
@@ -946,7 +966,7 @@ theorem witness_parser_unfaithful : sameRaw witnessParsed (rawOf witnessWritten)
 /-- … the written docstring is consistent with the signature … -/
 theorem witness_consistent : Consistent (resolveSig [] witnessFn) (specDoc [] witnessFn witnessWritten) := by decide
 /-- … and the library rejects it (with `Optional[int]: …` in the Returns section it is accepted) -/
-theorem witness_rejected : decorateRaw ⟨true, true⟩ false witnessFn witnessParsed = .raised docExc := by decide
+theorem witness_rejected : decorateRaw ⟨true, true⟩ false [] witnessFn witnessParsed = .raised docExc := by decide
 
 /-- **negation witness**: C19 does not hold for every (written docstring, parse) pair: known finding
     `C19-returns-type-with-blank-not-recognised` -/
@@ -956,7 +976,9 @@ theorem C19_full_fails : ¬ C19_full := by
   rw [witness_rejected] at this
   exact absurd (this.mpr witness_consistent) (by decide)
 
-/-! ### the annotation pool of the correspondence run, through context building and evaluation (non-vacuity of layer B) -/
+/-! ### the annotation pool of the correspondence run, through context building and evaluation (non-vacuity of layer B; the
+    spellings outside the vocabulary of `C19_vocab` below: `Callable[[…], …]`, `Literal[…]`, `Tuple[…, ...]`, `X | Y`, string
+    annotations, permuted / nested `Union`s — by kernel evaluation, for these 27 annotations only) -/
 
 /-- the module's own names: `class My`, `T = TypeVar('T')`, `class Other` -/
 def poolNs : Ctx := [(1000, .cls 1000), (1001, .tvar 1001), (1002, .cls 1002)]
@@ -1054,7 +1076,7 @@ def returnCase (a : Val) (t : TypeText) : FnD × Intended :=
   (⟨[(2000, .cls sInt)], some (some a), .text⟩, ⟨[⟨2000, some ⟨"int", some (.name 0)⟩⟩], some (some t)⟩)
 
 def acceptedFaithfully (c : FnD × Intended) : Bool :=
-  decide (decorateRaw ⟨true, true⟩ false c.1 (rawOf c.2) = .wrapper) && ctxFaithful poolNs c.1 c.2 &&
+  decide (decorateRaw ⟨true, true⟩ false poolNs c.1 (rawOf c.2) = .wrapper) && ctxFaithful poolNs c.1 c.2 &&
   decide (Consistent (resolveSig poolNs c.1) (specDoc poolNs c.1 c.2))
 
 /-- every annotation of the pool, documented in every listed equal spelling, as a parameter and as the return type:
@@ -1068,21 +1090,954 @@ theorem pool_consistent_accepted :
     with PedanticDocstringException, as a parameter and as the return type -/
 theorem pool_wrong_type_rejected :
     pool.all (fun ab => pool.all (fun bt => annEq (resolveAnn poolNs ab.1) (resolveAnn poolNs bt.1) || (bt.2.take 1).all (fun t =>
-      decide (decorateRaw ⟨true, true⟩ false (paramCase ab.1 t).1 (rawOf (paramCase ab.1 t).2) = .raised docExc) &&
-      decide (decorateRaw ⟨true, true⟩ false (returnCase ab.1 t).1 (rawOf (returnCase ab.1 t).2) = .raised docExc)))) = true := by
+      decide (decorateRaw ⟨true, true⟩ false poolNs (paramCase ab.1 t).1 (rawOf (paramCase ab.1 t).2) = .raised docExc) &&
+      decide (decorateRaw ⟨true, true⟩ false poolNs (returnCase ab.1 t).1 (rawOf (returnCase ab.1 t).2) = .raised docExc)))) = true := by
   decide +kernel
 
 -- layer B: `def f(p0: My | None)` documented `p0 (Optional[My])`: the context contains `My` (fix 9f161bb)
-example : decorateRaw ⟨true, true⟩ false ⟨[(2000, .union false [.cls 1000, .cls sNoneType])], some Option.none, .text⟩
+example : decorateRaw ⟨true, true⟩ false [] ⟨[(2000, .union false [.cls 1000, .cls sNoneType])], some Option.none, .text⟩
     ⟨[⟨2000, some ⟨"Optional[My]", some (.sub (.name 25) [.name 1000])⟩⟩], Option.none⟩ = .wrapper := by decide
 -- layer B: `p0 (List[int)` (no expression) and `p0 (List[int, str])` (TypeError) raise PedanticDocstringException (fix f4557bf)
-example : decorateRaw ⟨true, true⟩ false ⟨[(2000, .cls sInt)], some Option.none, .text⟩
+example : decorateRaw ⟨true, true⟩ false [] ⟨[(2000, .cls sInt)], some Option.none, .text⟩
     ⟨[⟨2000, some ⟨"List[int", Option.none⟩⟩], Option.none⟩ = .raised docExc := by decide
-example : decorateRaw ⟨true, true⟩ false ⟨[(2000, .cls sInt)], some Option.none, .text⟩
+example : decorateRaw ⟨true, true⟩ false [] ⟨[(2000, .cls sInt)], some Option.none, .text⟩
     ⟨[⟨2000, some ⟨"List[int, str]", some (.sub (.name 20) [.name 0, .name 1])⟩⟩], Option.none⟩ = .raised docExc := by decide
 -- layer B: `typing.List[int]` is refused because of the needle, before any evaluation
-example : decorateRaw ⟨true, true⟩ false ⟨[(2000, .talias .List [.cls sInt])], some Option.none, .text⟩
+example : decorateRaw ⟨true, true⟩ false [] ⟨[(2000, .talias .List [.cls sInt])], some Option.none, .text⟩
     ⟨[⟨2000, some ⟨"typing.List[int]", some (.sub (.name 5000) [.name 0])⟩⟩], Option.none⟩ = .raised docExc := by decide
+
+/-! ### layer B at every nesting depth: the documented text one writes for an annotation evaluates, in the context the library
+    builds, to that annotation -/
+
+mutual
+/-- the type expression one writes in a docstring for the annotation `v` (canonical spelling: `List[int]`, `Dict[str, My]`,
+    `Union[int, None]`, `list[int]`, `T`, `Any`; `NoneType` inside a generic is written `None`) -/
+def render : Val → DExpr
+  | .cls n => if n == sNoneType then .none else .name n
+  | .tvar n => .name n
+  | .special h => .name (headSym h)
+  | .talias h args => .sub (.name (headSym h)) (renderL args)
+  | .balias o args => .sub (.name o) (renderL args)
+  | .union _ args => .sub (.name 26) (renderL args)
+  | _ => .exitCall                                   -- outside the vocabulary below (no theorem speaks about it)
+def renderL : List Val → List DExpr
+  | [] => []
+  | v :: vs => render v :: renderL vs
+end
+
+def isUnionV : Val → Bool
+  | .union _ _ => true
+  | _ => false
+
+/-- no two members are equal (what `_deduplicate` leaves) -/
+def distinctL : List Val → Bool
+  | [] => true
+  | a :: as => as.all (fun b => !annEq a b) && distinctL as
+
+def isNoneTypeCls : Val → Bool
+  | .cls n => n == sNoneType
+  | _ => false
+
+def arityOk : Head → Nat → Bool
+  | .List, n => n == 1
+  | .Set, n => n == 1
+  | .Type, n => n == 1
+  | .Dict, n => n == 2
+  | .Tuple, n => 1 ≤ n
+  | _, _ => false
+
+mutual
+/-- **vocabulary**: builtin classes, the module's own classes (`κ n = true`) and type variables (`κ n = false`; identifiers ≥ 1000), `Any`,
+    `List[…]` / `Set[…]` / `Type[…]` / `Dict[…, …]` / `Tuple[…]` (without `...`), builtin generics `list[…]` …, `Union[…]` / `Optional[…]`
+    in the normal form `typing` gives them (flat, no duplicates, at least two members), nested to ANY depth; `NoneType` only as an
+    argument of a typing generic.  `κ` says which kind of object an identifier names: one name, one object (no class and type variable
+    of the same `__name__`). -/
+def vocab (κ : Sym → Bool) : Val → Bool
+  | .cls n => decide (n ≤ sBytes) || (decide (1000 ≤ n) && κ n)
+  | .tvar n => decide (1000 ≤ n) && !κ n
+  | .special h => h == .Any
+  | .talias h args => arityOk h args.length && vocabArgs κ args
+  | .balias o args => builtinGeneric o && vocabL κ args
+  | .union tf args => tf && decide (2 ≤ args.length) && args.all (fun a => !isUnionV a) && distinctL args && vocabArgs κ args
+  | _ => false
+/-- arguments of a typing generic: vocabulary or `NoneType` -/
+def vocabArgs (κ : Sym → Bool) : List Val → Bool
+  | [] => true
+  | a :: as => (vocab κ a || isNoneTypeCls a) && vocabArgs κ as
+/-- arguments of a builtin generic: vocabulary -/
+def vocabL (κ : Sym → Bool) : List Val → Bool
+  | [] => true
+  | a :: as => vocab κ a && vocabL κ as
+end
+
+/-- the object the identifier `n` names -/
+def leafOf (κ : Sym → Bool) (n : Sym) : Val := if n < 1000 then .cls n else if κ n then .cls n else .tvar n
+
+/-- identifiers a context may bind: builtin class names, `NoneType`, the module's identifiers — not the names of `typing` -/
+def bindable (n : Sym) : Bool := decide (n ≤ sBytes) || n == sNoneType || decide (1000 ≤ n)
+
+/-- **well-named context**: every binding maps an identifier to the object of that name -/
+def WN (κ : Sym → Bool) (ctx : Ctx) : Prop := ∀ n v, ctx.get n = some v → v = leafOf κ n ∧ bindable n = true
+
+mutual
+/-- every class of the module / type variable that occurs in `v` is bound in `ctx` (builtin classes are found without a binding,
+    `NoneType` is written `None`) -/
+def boundIn (ctx : Ctx) : Val → Bool
+  | .cls n => decide (n ≤ sBytes) || n == sNoneType || (ctx.get n).isSome
+  | .tvar n => (ctx.get n).isSome
+  | .talias _ args => boundInL ctx args
+  | .balias _ args => boundInL ctx args
+  | .union _ args => boundInL ctx args
+  | _ => true
+def boundInL (ctx : Ctx) : List Val → Bool
+  | [] => true
+  | a :: as => boundIn ctx a && boundInL ctx as
+end
+
+
+theorem get_cons (k : Sym) (v : Val) (rest : Ctx) (n : Sym) :
+    Ctx.get ((k, v) :: rest) n = if k == n then some v else Ctx.get rest n := rfl
+
+/-- `ctx'` binds at least the identifiers `ctx` binds -/
+def Ext (ctx ctx' : Ctx) : Prop := ∀ n, (ctx.get n).isSome = true → (ctx'.get n).isSome = true
+
+theorem Ext.refl (ctx : Ctx) : Ext ctx ctx := fun _ h => h
+theorem Ext.trans {a b c : Ctx} (h1 : Ext a b) (h2 : Ext b c) : Ext a c := fun n h => h2 n (h1 n h)
+theorem Ext.cons (ctx : Ctx) (k : Sym) (v : Val) : Ext ctx ((k, v) :: ctx) := by
+  intro n h
+  rw [get_cons]
+  split <;> simp [h]
+
+mutual
+/-- **context monotonicity**: `_update_context` only adds bindings -/
+theorem ext_update : ∀ (v : Val) (ctx : Ctx), Ext ctx (updateContext ctx v)
+  | .cls n, ctx => by unfold updateContext; split; exact Ext.refl _; exact Ext.cons _ _ _
+  | .tvar n, ctx => by unfold updateContext; split; exact Ext.refl _; exact Ext.cons _ _ _
+  | .special h, ctx => by unfold updateContext; split; exact Ext.refl _; exact Ext.cons _ _ _
+  | .str n, ctx => by unfold updateContext; exact Ext.cons _ _ _
+  | .talias h args, ctx => by unfold updateContext; split; exact ext_updateAll args ctx; exact Ext.cons _ _ _
+  | .balias o args, ctx => by unfold updateContext; split; exact ext_updateAll args ctx; exact Ext.cons _ _ _
+  | .union true args, ctx => by unfold updateContext; split; exact ext_updateAll args ctx; exact Ext.cons _ _ _
+  | .union false args, ctx => by unfold updateContext; split; exact ext_updateAll args ctx; exact Ext.refl _
+  | .none, ctx => by unfold updateContext; exact Ext.refl _
+  | .ellipsis, ctx => by unfold updateContext; exact Ext.refl _
+  | .int _, ctx => by unfold updateContext; exact Ext.refl _
+  | .bool _, ctx => by unfold updateContext; exact Ext.refl _
+  | .fref _, ctx => by unfold updateContext; exact Ext.refl _
+  | .pylist _, ctx => by unfold updateContext; exact Ext.refl _
+theorem ext_updateAll : ∀ (vs : List Val) (ctx : Ctx), Ext ctx (updateAll ctx vs)
+  | [], ctx => by unfold updateAll; exact Ext.refl _
+  | v :: vs, ctx => by unfold updateAll; exact Ext.trans (ext_update v ctx) (ext_updateAll vs _)
+end
+
+mutual
+theorem boundIn_ext : ∀ (v : Val) (ctx ctx' : Ctx), Ext ctx ctx' → boundIn ctx v = true → boundIn ctx' v = true
+  | .cls n, ctx, ctx', he, h => by
+    simp only [boundIn, Bool.or_eq_true] at h ⊢
+    rcases h with h | h
+    · exact Or.inl h
+    · exact Or.inr (he n h)
+  | .tvar n, ctx, ctx', he, h => by simp only [boundIn] at h ⊢; exact he n h
+  | .talias _ args, ctx, ctx', he, h => by simp only [boundIn] at h ⊢; exact boundInL_ext args ctx ctx' he h
+  | .balias _ args, ctx, ctx', he, h => by simp only [boundIn] at h ⊢; exact boundInL_ext args ctx ctx' he h
+  | .union _ args, ctx, ctx', he, h => by simp only [boundIn] at h ⊢; exact boundInL_ext args ctx ctx' he h
+  | .special _, _, _, _, _ => by simp [boundIn]
+  | .str _, _, _, _, _ => by simp [boundIn]
+  | .none, _, _, _, _ => by simp [boundIn]
+  | .ellipsis, _, _, _, _ => by simp [boundIn]
+  | .int _, _, _, _, _ => by simp [boundIn]
+  | .bool _, _, _, _, _ => by simp [boundIn]
+  | .fref _, _, _, _, _ => by simp [boundIn]
+  | .pylist _, _, _, _, _ => by simp [boundIn]
+theorem boundInL_ext : ∀ (vs : List Val) (ctx ctx' : Ctx), Ext ctx ctx' → boundInL ctx vs = true → boundInL ctx' vs = true
+  | [], _, _, _, _ => by simp [boundInL]
+  | v :: vs, ctx, ctx', he, h => by
+    simp only [boundInL, Bool.and_eq_true] at h ⊢
+    exact ⟨boundIn_ext v ctx ctx' he h.1, boundInL_ext vs ctx ctx' he h.2⟩
+end
+
+
+theorem WN.cons {κ : Sym → Bool} {ctx : Ctx} (h : WN κ ctx) (k : Sym) (v : Val) (hv : v = leafOf κ k) (hb : bindable k = true) :
+    WN κ ((k, v) :: ctx) := by
+  intro n w hw
+  rw [get_cons] at hw
+  split at hw
+  · rename_i hk
+    have : k = n := by simpa using hk
+    subst this
+    simp only [Option.some.injEq] at hw
+    subst hw
+    exact ⟨hv, hb⟩
+  · exact h n w hw
+
+theorem descend_facts : descendTest true true true = true ∧ descendTest false true true = true ∧
+    descendTest true false false = true ∧ descendTest false false false = false := by
+  have := descendTest_table; exact ⟨this.1, this.2.1, this.2.2.2.1, this.2.2.2.2⟩
+
+/-- a class / type variable of the vocabulary (or `NoneType`) is the object its name stands for -/
+theorem leaf_cls {κ : Sym → Bool} {n : Nat} (h : (vocab κ (.cls n) || isNoneTypeCls (.cls n)) = true) :
+    Val.cls n = leafOf κ n ∧ bindable n = true := by
+  simp only [vocab, isNoneTypeCls, Bool.or_eq_true, Bool.and_eq_true, decide_eq_true_eq, beq_iff_eq] at h
+  unfold leafOf bindable
+  rcases h with (h | ⟨h1, h2⟩) | h
+  · have h' : n ≤ 8 := h
+    have : n < 1000 := by omega
+    simp [this, h]
+  · have h1' : 1000 ≤ n := h1
+    have : ¬ n < 1000 := by omega
+    simp [this, h2, h1]
+  · have h' : n = 10 := h
+    subst h'
+    exact ⟨by simp, by decide⟩
+
+theorem leaf_tvar {κ : Sym → Bool} {n : Nat} (h : vocab κ (.tvar n) = true) : Val.tvar n = leafOf κ n ∧ bindable n = true := by
+  simp only [vocab, Bool.and_eq_true, decide_eq_true_eq, Bool.not_eq_true'] at h
+  unfold leafOf bindable
+  have h1' : 1000 ≤ n := h.1
+  have : ¬ n < 1000 := by omega
+  simp [this, h.2, h.1]
+
+mutual
+/-- `_update_context` of a vocabulary annotation keeps the context well-named … -/
+theorem wn_update {κ : Sym → Bool} : ∀ (v : Val) (ctx : Ctx), (vocab κ v || isNoneTypeCls v) = true → WN κ ctx → WN κ (updateContext ctx v)
+  | .cls n, ctx, hv, h => by
+    unfold updateContext; rw [descend_facts.2.2.2]
+    simp only [Bool.false_eq_true, ↓reduceIte]
+    exact h.cons n _ (leaf_cls hv).1 (leaf_cls hv).2
+  | .tvar n, ctx, hv, h => by
+    unfold updateContext; rw [descend_facts.2.2.2]
+    simp only [Bool.false_eq_true, ↓reduceIte]
+    have hv' : vocab κ (.tvar n) = true := by simpa [isNoneTypeCls] using hv
+    exact h.cons n _ (leaf_tvar hv').1 (leaf_tvar hv').2
+  | .special hd, ctx, hv, h => by unfold updateContext; rw [descend_facts.2.2.1]; simpa using h
+  | .talias hd args, ctx, hv, h => by
+    unfold updateContext; rw [descend_facts.1]
+    simp only [↓reduceIte]
+    have : vocabArgs κ args = true := by simp [vocab, isNoneTypeCls] at hv; exact hv.2
+    exact wn_updateArgs args ctx this h
+  | .balias o args, ctx, hv, h => by
+    unfold updateContext; rw [descend_facts.2.1]
+    simp only [↓reduceIte]
+    have : vocabL κ args = true := by simp [vocab, isNoneTypeCls] at hv; exact hv.2
+    exact wn_updateL args ctx this h
+  | .union true args, ctx, hv, h => by
+    unfold updateContext; rw [descend_facts.1]
+    simp only [↓reduceIte]
+    have : vocabArgs κ args = true := by simp [vocab, isNoneTypeCls] at hv; exact hv.2
+    exact wn_updateArgs args ctx this h
+  | .union false args, ctx, hv, h => by simp [vocab, isNoneTypeCls] at hv
+  | .str _, _, hv, _ => by simp [vocab, isNoneTypeCls] at hv
+  | .none, _, hv, _ => by simp [vocab, isNoneTypeCls] at hv
+  | .ellipsis, _, hv, _ => by simp [vocab, isNoneTypeCls] at hv
+  | .int _, _, hv, _ => by simp [vocab, isNoneTypeCls] at hv
+  | .bool _, _, hv, _ => by simp [vocab, isNoneTypeCls] at hv
+  | .fref _, _, hv, _ => by simp [vocab, isNoneTypeCls] at hv
+  | .pylist _, _, hv, _ => by simp [vocab, isNoneTypeCls] at hv
+theorem wn_updateArgs {κ : Sym → Bool} : ∀ (vs : List Val) (ctx : Ctx), vocabArgs κ vs = true → WN κ ctx → WN κ (updateAll ctx vs)
+  | [], ctx, _, h => by unfold updateAll; exact h
+  | v :: vs, ctx, hv, h => by
+    unfold updateAll
+    simp only [vocabArgs, Bool.and_eq_true] at hv
+    exact wn_updateArgs vs _ hv.2 (wn_update v ctx hv.1 h)
+theorem wn_updateL {κ : Sym → Bool} : ∀ (vs : List Val) (ctx : Ctx), vocabL κ vs = true → WN κ ctx → WN κ (updateAll ctx vs)
+  | [], ctx, _, h => by unfold updateAll; exact h
+  | v :: vs, ctx, hv, h => by
+    unfold updateAll
+    simp only [vocabL, Bool.and_eq_true] at hv
+    exact wn_updateL vs _ hv.2 (wn_update v ctx (by simp [hv.1]) h)
+end
+
+
+mutual
+/-- … and binds every class and type variable that occurs in the annotation -/
+theorem bound_update : ∀ (v : Val) (ctx : Ctx), boundIn (updateContext ctx v) v = true
+  | .cls n, ctx => by
+    unfold updateContext; rw [descend_facts.2.2.2]
+    simp [boundIn, get_cons]
+  | .tvar n, ctx => by
+    unfold updateContext; rw [descend_facts.2.2.2]
+    simp [boundIn, get_cons]
+  | .talias hd args, ctx => by
+    unfold updateContext; rw [descend_facts.1]
+    simp only [↓reduceIte, boundIn]; exact bound_updateAll args ctx
+  | .balias o args, ctx => by
+    unfold updateContext; rw [descend_facts.2.1]
+    simp only [↓reduceIte, boundIn]; exact bound_updateAll args ctx
+  | .union true args, ctx => by
+    unfold updateContext; rw [descend_facts.1]
+    simp only [↓reduceIte, boundIn]; exact bound_updateAll args ctx
+  | .union false args, ctx => by
+    unfold updateContext; rw [descendTest_table.2.2.1]
+    simp only [↓reduceIte, boundIn]; exact bound_updateAll args ctx
+  | .special _, _ => by simp [boundIn]
+  | .str _, _ => by simp [boundIn]
+  | .none, _ => by simp [boundIn]
+  | .ellipsis, _ => by simp [boundIn]
+  | .int _, _ => by simp [boundIn]
+  | .bool _, _ => by simp [boundIn]
+  | .fref _, _ => by simp [boundIn]
+  | .pylist _, _ => by simp [boundIn]
+theorem bound_updateAll : ∀ (vs : List Val) (ctx : Ctx), boundInL (updateAll ctx vs) vs = true
+  | [], ctx => by simp [boundInL]
+  | v :: vs, ctx => by
+    unfold updateAll
+    simp only [boundInL, Bool.and_eq_true]
+    exact ⟨boundIn_ext v _ _ (ext_updateAll vs _) (bound_update v ctx), bound_updateAll vs _⟩
+end
+
+/-! #### evaluation of the rendered text -/
+
+theorem lookup_typing {κ : Sym → Bool} {ctx : Ctx} (h : WN κ ctx) (hd : Head) :
+    evalD ctx (.name (headSym hd)) = .ok (.special hd) := by
+  have hnone : ctx.get (headSym hd) = Option.none := by
+    cases hg : ctx.get (headSym hd) with
+    | none => rfl
+    | some v =>
+      have := (h _ v hg).2
+      cases hd <;> simp [bindable, headSym, sBytes, sNoneType] at this
+  simp only [evalD, hnone]
+  cases hd <;> rfl
+
+theorem lookup_builtin {κ : Sym → Bool} {ctx : Ctx} (h : WN κ ctx) (n : Nat) (hn : n ≤ 8) :
+    evalD ctx (.name n) = .ok (.cls n) := by
+  have hg : globalLookup n = some (.cls n) := by
+    have : n = 0 ∨ n = 1 ∨ n = 2 ∨ n = 3 ∨ n = 4 ∨ n = 5 ∨ n = 6 ∨ n = 7 ∨ n = 8 := by omega
+    rcases this with rfl | rfl | rfl | rfl | rfl | rfl | rfl | rfl | rfl <;> rfl
+  simp only [evalD]
+  cases hc : ctx.get n with
+  | none => simp [hg]
+  | some v =>
+    have := (h n v hc).1
+    have hlt : n < 1000 := by omega
+    simp [leafOf, hlt] at this
+    simp [this]
+
+theorem lookup_leaf {κ : Sym → Bool} {ctx : Ctx} (h : WN κ ctx) (n : Nat) (hb : (ctx.get n).isSome = true) :
+    evalD ctx (.name n) = .ok (leafOf κ n) := by
+  simp only [evalD]
+  cases hc : ctx.get n with
+  | none => simp [hc] at hb
+  | some v => simp [(h n v hc).1]
+
+/-- what one writes for an argument of a typing generic evaluates to: `None` for `NoneType`, the argument itself otherwise -/
+def unconv (a : Val) : Val := if isNoneTypeCls a then .none else a
+
+theorem typeCheck_unconv {κ : Sym → Bool} (a : Val) (h : (vocab κ a || isNoneTypeCls a) = true) : typeCheck (unconv a) = .ok a := by
+  cases a with
+  | cls n =>
+    by_cases hn : n = sNoneType
+    · subst hn; rfl
+    · have : (n == sNoneType) = false := by simpa using hn
+      simp [unconv, isNoneTypeCls, this, typeCheck, typeConvert]
+  | special hd =>
+    have : hd = .Any := by simpa [vocab, isNoneTypeCls] using h
+    subst this; rfl
+  | tvar n => rfl
+  | talias hd args => rfl
+  | balias o args => rfl
+  | union tf args => rfl
+  | none => simp [vocab, isNoneTypeCls] at h
+  | ellipsis => simp [vocab, isNoneTypeCls] at h
+  | int _ => simp [vocab, isNoneTypeCls] at h
+  | bool _ => simp [vocab, isNoneTypeCls] at h
+  | str _ => simp [vocab, isNoneTypeCls] at h
+  | fref _ => simp [vocab, isNoneTypeCls] at h
+  | pylist _ => simp [vocab, isNoneTypeCls] at h
+
+theorem typeCheckAll_unconv {κ : Sym → Bool} : ∀ (vs : List Val), vocabArgs κ vs = true → typeCheckAll (vs.map unconv) = .ok vs
+  | [], _ => rfl
+  | v :: vs, h => by
+    simp only [vocabArgs, Bool.and_eq_true] at h
+    simp only [List.map_cons, typeCheckAll, typeCheck_unconv v h.1, typeCheckAll_unconv vs h.2]
+    rfl
+
+theorem beq_noneType_false (n : Nat) (h : n ≤ 8 ∨ 1000 ≤ n) : (n == sNoneType) = false := by
+  have : n ≠ 10 := by omega
+  show (n == 10) = false
+  simpa using this
+
+theorem unconv_vocab {κ : Sym → Bool} (a : Val) (h : vocab κ a = true) : unconv a = a := by
+  cases a <;> simp [vocab] at h <;> try rfl
+  rename_i n
+  have hn : (n == sNoneType) = false := beq_noneType_false n (h.elim (fun h => Or.inl h) (fun h => Or.inr h.1))
+  simp [unconv, isNoneTypeCls, hn]
+
+
+theorem flattenU_id : ∀ (args : List Val), args.all (fun a => !isUnionV a) = true → flattenU args = args
+  | [], _ => rfl
+  | a :: as, h => by
+    simp only [List.all_cons, Bool.and_eq_true] at h
+    have ih := flattenU_id as h.2
+    cases a <;> simp [isUnionV] at h <;> simp [flattenU, ih]
+
+theorem dedupe_id : ∀ (args : List Val), distinctL args = true → dedupe args = args
+  | [], _ => rfl
+  | a :: as, h => by
+    simp only [distinctL, Bool.and_eq_true] at h
+    simp only [dedupe, dedupe_id as h.2, List.cons.injEq, true_and]
+    exact List.filter_eq_self.mpr (by simpa using h.1)
+
+theorem mkUnion_normal (args : List Val) (h2 : 2 ≤ args.length) (hu : args.all (fun a => !isUnionV a) = true)
+    (hd : distinctL args = true) : mkUnion true args = .union true args := by
+  unfold mkUnion
+  rw [flattenU_id args hu, dedupe_id args hd]
+  match args, h2 with
+  | a :: b :: rest, _ => rfl
+
+theorem unconv_ne_ellipsis {κ : Sym → Bool} : ∀ (vs : List Val), vocabArgs κ vs = true → ∀ a ∈ vs.map unconv, a ≠ .ellipsis
+  | [], _, a, ha => by simp at ha
+  | v :: vs, h, a, ha => by
+    simp only [vocabArgs, Bool.and_eq_true] at h
+    simp only [List.map_cons, List.mem_cons] at ha
+    rcases ha with rfl | ha
+    · intro he
+      have := typeCheck_unconv v h.1
+      rw [he] at this
+      simp [typeCheck, typeConvert] at this
+      rw [← this] at h
+      simp [vocab, isNoneTypeCls] at h
+    · exact unconv_ne_ellipsis vs h.2 a ha
+
+theorem splitEllipsis_none (args : List Val) (h : ∀ a ∈ args, a ≠ .ellipsis) : splitEllipsis args = Option.none := by
+  unfold splitEllipsis
+  split
+  · rename_i r rest heq
+    have : Val.ellipsis ∈ args := by
+      have : Val.ellipsis ∈ args.reverse := by rw [heq]; simp
+      simpa using this
+    exact absurd rfl (h _ this)
+  · rfl
+
+
+theorem subscript_talias {κ : Sym → Bool} (hd : Head) (args : List Val) (ha : arityOk hd args.length = true)
+    (hv : vocabArgs κ args = true) : subscript (.special hd) (args.map unconv) = .ok (.talias hd args) := by
+  have htc := typeCheckAll_unconv args hv
+  cases hd <;> simp [arityOk] at ha
+  · simp [subscript, ha, htc]; rfl
+  · simp [subscript, ha, htc]; rfl
+  · simp only [subscript, splitEllipsis_none _ (unconv_ne_ellipsis args hv), htc]; rfl
+  · simp [subscript, ha, htc]; rfl
+  · simp [subscript, ha, htc]; rfl
+
+theorem not_lt_1000 (n : Nat) (h : 1000 ≤ n) : ¬ n < 1000 := by omega
+
+theorem evalD_sub (ctx : Ctx) (f : DExpr) (args : List DExpr) :
+    evalD ctx (.sub f args) = (evalD ctx f >>= fun fv => evalDs ctx args >>= fun avs => subscript fv avs) := by
+  simp only [evalD]
+
+theorem evalDs_cons (ctx : Ctx) (e : DExpr) (es : List DExpr) :
+    evalDs ctx (e :: es) = (evalD ctx e >>= fun v => evalDs ctx es >>= fun vs => pure (v :: vs)) := by
+  simp only [evalDs]
+
+theorem ite_bind_cons {α : Type} (b1 b2 : Bool) (a : α) (as : List α) :
+    ((if b1 = true then Except.ok a else Except.error EvalErr.name) >>= fun v =>
+      (if b2 = true then Except.ok as else Except.error EvalErr.name) >>= fun vs => (pure (v :: vs) : Except EvalErr (List α))) =
+    if (b1 && b2) = true then Except.ok (a :: as) else Except.error EvalErr.name := by
+  cases b1 <;> cases b2 <;> rfl
+
+theorem ok_bind {α β : Type} (a : α) (f : α → Except EvalErr β) : (Except.ok a >>= f) = f a := rfl
+
+theorem globalLookup_user (n : Nat) (h : 1000 ≤ n) : globalLookup n = Option.none := by
+  have h1 : ∀ k : Nat, k < 1000 → (n == k) = false := by
+    intro k hk
+    have : n ≠ k := by omega
+    simpa using this
+  have h2 : ¬ n ≤ sBytes := by
+    show ¬ n ≤ 8
+    omega
+  simp [globalLookup, typingName, h1, h2]
+
+mutual
+/-- **round trip**: in a well-named context the text one writes for the annotation `v` evaluates to `v` itself when the context
+    binds the module's classes and type variables that occur in `v`, and to a NameError otherwise — for every annotation of the
+    vocabulary, at every nesting depth -/
+theorem render_eval {κ : Sym → Bool} : ∀ (v : Val) (ctx : Ctx), vocab κ v = true → WN κ ctx →
+    evalD ctx (render v) = if boundIn ctx v then .ok v else .error .name
+  | .cls n, ctx, hv, hw => by
+    simp only [vocab, Bool.or_eq_true, Bool.and_eq_true, decide_eq_true_eq] at hv
+    have hn : (n == sNoneType) = false := beq_noneType_false n (hv.elim (fun h => Or.inl h) (fun h => Or.inr h.1))
+    simp only [render, hn, Bool.false_eq_true, ↓reduceIte, boundIn, Bool.or_false]
+    rcases hv with h | ⟨h1, h2⟩
+    · have : decide (n ≤ sBytes) = true := by simpa using h
+      simp only [this, Bool.true_or, ↓reduceIte]
+      exact lookup_builtin hw n h
+    · have hnb : decide (n ≤ sBytes) = false := by
+        have : ¬ (n ≤ sBytes) := fun h8 => absurd (Nat.le_trans h1 h8) (by decide)
+        simpa using this
+      have hlt := not_lt_1000 n h1
+      simp only [hnb, Bool.false_or, evalD]
+      cases hg : ctx.get n with
+      | some w =>
+        have := (hw n w hg).1
+        simp only [leafOf, hlt, ↓reduceIte, h2] at this
+        simp [this]
+      | none => simp [globalLookup_user n h1]
+  | .tvar n, ctx, hv, hw => by
+    simp only [vocab, Bool.and_eq_true, decide_eq_true_eq, Bool.not_eq_true'] at hv
+    have hlt := not_lt_1000 n hv.1
+    simp only [render, boundIn, evalD]
+    by_cases hs : (ctx.get n).isSome = true
+    · obtain ⟨w, hg⟩ := Option.isSome_iff_exists.mp hs
+      have := (hw n w hg).1
+      simp only [leafOf, hlt, ↓reduceIte, hv.2, Bool.false_eq_true] at this
+      simp [hg, this]
+    · have hg : ctx.get n = Option.none := by simpa using hs
+      simp [hg, globalLookup_user n hv.1]
+  | .special hd, ctx, hv, hw => by
+    simp only [render, boundIn, ↓reduceIte]; exact lookup_typing hw hd
+  | .talias hd args, ctx, hv, hw => by
+    simp only [vocab, Bool.and_eq_true] at hv
+    simp only [render, boundIn]
+    rw [evalD_sub, lookup_typing hw hd, render_evalArgs args ctx hv.2 hw, ok_bind]
+    by_cases hb : boundInL ctx args = true
+    · simp only [hb]
+      simp only [↓reduceIte, ok_bind]; exact subscript_talias hd args hv.1 hv.2
+    · have hb' : boundInL ctx args = false := by simpa using hb
+      simp only [hb']
+      rfl
+  | .balias o args, ctx, hv, hw => by
+    simp only [vocab, Bool.and_eq_true] at hv
+    have ho : (o : Nat) ≤ 8 := by
+      have := hv.1
+      simp only [builtinGeneric, Bool.or_eq_true, beq_iff_eq] at this
+      rcases this with ((h | h) | h) | h <;> (rw [h]; decide)
+    simp only [render, boundIn]
+    rw [evalD_sub, lookup_builtin hw o ho, render_evalL args ctx hv.2 hw, ok_bind]
+    by_cases hb : boundInL ctx args = true
+    · simp only [hb]
+      simp only [↓reduceIte, ok_bind]; simp [subscript, hv.1, pure, Except.pure]
+    · have hb' : boundInL ctx args = false := by simpa using hb
+      simp only [hb']
+      rfl
+  | .union tf args, ctx, hv, hw => by
+    simp only [vocab, Bool.and_eq_true, decide_eq_true_eq] at hv
+    obtain ⟨⟨⟨⟨htf, h2⟩, hu⟩, hd⟩, hva⟩ := hv
+    subst htf
+    have := lookup_typing hw .Union
+    simp only [headSym] at this
+    simp only [render, boundIn]
+    rw [evalD_sub, this, render_evalArgs args ctx hva hw, ok_bind]
+    by_cases hb : boundInL ctx args = true
+    · simp only [hb]
+      simp only [↓reduceIte, ok_bind, subscript, typeCheckAll_unconv args hva, pure, Except.pure, mkUnion_normal args h2 hu hd]
+    · have hb' : boundInL ctx args = false := by simpa using hb
+      simp only [hb']
+      rfl
+  | .str _, _, hv, _ => by simp [vocab] at hv
+  | .none, _, hv, _ => by simp [vocab] at hv
+  | .ellipsis, _, hv, _ => by simp [vocab] at hv
+  | .int _, _, hv, _ => by simp [vocab] at hv
+  | .bool _, _, hv, _ => by simp [vocab] at hv
+  | .fref _, _, hv, _ => by simp [vocab] at hv
+  | .pylist _, _, hv, _ => by simp [vocab] at hv
+theorem render_evalArgs {κ : Sym → Bool} : ∀ (vs : List Val) (ctx : Ctx), vocabArgs κ vs = true → WN κ ctx →
+    evalDs ctx (renderL vs) = if boundInL ctx vs then .ok (vs.map unconv) else .error .name
+  | [], _, _, _ => rfl
+  | v :: vs, ctx, hv, hw => by
+    simp only [vocabArgs, Bool.and_eq_true, Bool.or_eq_true] at hv
+    have ih := render_evalArgs vs ctx hv.2 hw
+    have hhead : evalD ctx (render v) = if boundIn ctx v then .ok (unconv v) else .error .name := by
+      rcases hv.1 with h | h
+      · rw [unconv_vocab v h]; exact render_eval v ctx h hw
+      · cases v <;> simp [isNoneTypeCls] at h
+        subst h; rfl
+    simp only [renderL, boundInL]
+    rw [evalDs_cons, hhead, ih]
+    exact ite_bind_cons _ _ _ _
+theorem render_evalL {κ : Sym → Bool} : ∀ (vs : List Val) (ctx : Ctx), vocabL κ vs = true → WN κ ctx →
+    evalDs ctx (renderL vs) = if boundInL ctx vs then .ok vs else .error .name
+  | [], _, _, _ => rfl
+  | v :: vs, ctx, hv, hw => by
+    simp only [vocabL, Bool.and_eq_true] at hv
+    simp only [renderL, boundInL]
+    rw [evalDs_cons, render_eval v ctx hv.1 hw, render_evalL vs ctx hv.2 hw]
+    exact ite_bind_cons _ _ _ _
+end
+
+/-- in particular: bound ⇒ the annotation itself -/
+theorem render_roundtrip {κ : Sym → Bool} (v : Val) (ctx : Ctx) (hv : vocab κ v = true) (hw : WN κ ctx) (hb : boundIn ctx v = true) :
+    evalD ctx (render v) = .ok v := by
+  rw [render_eval v ctx hv hw, hb]; rfl
+
+
+/-! #### equal annotations mention the same classes and type variables -/
+
+theorem boundInL_iff (ctx : Ctx) : ∀ (vs : List Val), boundInL ctx vs = true ↔ ∀ v ∈ vs, boundIn ctx v = true
+  | [] => by simp [boundInL]
+  | v :: vs => by simp [boundInL, boundInL_iff ctx vs]
+
+theorem eqL_bound (ctx : Ctx) (as : List Val) (ih : ∀ a ∈ as, ∀ b, annEq a b = true → boundIn ctx b = true → boundIn ctx a = true) :
+    ∀ bs, eqL as bs = true → boundInL ctx bs = true → boundInL ctx as = true := by
+  induction as with
+  | nil => intro bs _ _; simp [boundInL]
+  | cons a as iha =>
+    intro bs h hb
+    cases bs with
+    | nil => simp [eqL] at h
+    | cons b bs =>
+      simp only [eqL, Bool.and_eq_true] at h
+      simp only [boundInL, Bool.and_eq_true] at hb ⊢
+      exact ⟨ih a (by simp) b h.1 hb.1, iha (fun x hx => ih x (by simp [hx])) bs h.2 hb.2⟩
+
+theorem subsetL_bound (ctx : Ctx) (as bs : List Val) (ih : ∀ a ∈ as, ∀ b, annEq a b = true → boundIn ctx b = true → boundIn ctx a = true)
+    (h : subsetL as bs = true) (hb : boundInL ctx bs = true) : boundInL ctx as = true := by
+  rw [subsetL_eq] at h
+  simp only [List.all_eq_true, List.any_eq_true] at h
+  rw [boundInL_iff] at hb ⊢
+  intro a ha
+  obtain ⟨b, hbm, hab⟩ := h a ha
+  exact ih a ha b hab (hb b hbm)
+
+mutual
+/-- if `a == b` then every class / type variable `a` mentions is one `b` mentions -/
+theorem bound_of_annEq (ctx : Ctx) : ∀ (a b : Val), annEq a b = true → boundIn ctx b = true → boundIn ctx a = true
+  | .cls n, b, h, hb => by cases b <;> simp [annEq] at h; subst h; exact hb
+  | .tvar n, b, h, hb => by cases b <;> simp [annEq] at h; subst h; exact hb
+  | .none, b, h, hb => by simp [boundIn]
+  | .ellipsis, b, h, hb => by simp [boundIn]
+  | .int i, b, h, hb => by simp [boundIn]
+  | .bool i, b, h, hb => by simp [boundIn]
+  | .str n, b, h, hb => by simp [boundIn]
+  | .special hd, b, h, hb => by simp [boundIn]
+  | .fref n, b, h, hb => by simp [boundIn]
+  | .pylist as, b, h, hb => by simp [boundIn]
+  | .talias hd as, b, h, hb => by
+    cases b <;> simp only [annEq, Bool.false_eq_true] at h
+    rename_i hd' bs
+    simp only [boundIn] at hb ⊢
+    simp only [Bool.and_eq_true] at h
+    have ih := bound_of_annEq_list ctx as
+    split at h
+    · simp only [Bool.and_eq_true] at h
+      exact subsetL_bound ctx as bs ih h.2.1 hb
+    · exact eqL_bound ctx as ih bs h.2 hb
+  | .balias o as, b, h, hb => by
+    cases b <;> simp only [annEq, Bool.false_eq_true] at h
+    rename_i o' bs
+    simp only [boundIn] at hb ⊢
+    simp only [Bool.and_eq_true] at h
+    exact eqL_bound ctx as (bound_of_annEq_list ctx as) bs h.2 hb
+  | .union f as, b, h, hb => by
+    cases b <;> simp only [annEq, Bool.false_eq_true] at h
+    rename_i f' bs
+    simp only [boundIn] at hb ⊢
+    simp only [Bool.and_eq_true] at h
+    exact subsetL_bound ctx as bs (bound_of_annEq_list ctx as) h.1 hb
+theorem bound_of_annEq_list (ctx : Ctx) : ∀ (as : List Val), ∀ a ∈ as, ∀ b, annEq a b = true → boundIn ctx b = true → boundIn ctx a = true
+  | [], a, h, _, _, _ => by simp at h
+  | x :: xs, a, h, b, hab, hb => by
+    simp only [List.mem_cons] at h
+    rcases h with rfl | h
+    · exact bound_of_annEq ctx a b hab hb
+    · exact bound_of_annEq_list ctx xs a h b hab hb
+end
+
+
+/-! #### the contexts `_check_docstring` evaluates the documented types in -/
+
+/-- every annotation of the signature lies in the vocabulary -/
+def SigVocab (κ : Sym → Bool) (f : FnD) : Prop :=
+  (∀ na ∈ f.anns, vocab κ na.2 = true) ∧ (∀ r, returnedType f = some r → vocab κ r = true)
+
+theorem WN.nil (κ : Sym → Bool) : WN κ [] := by intro n v h; simp [Ctx.get] at h
+
+theorem ctxAfterReturn_eq (c0 : Ctx) (f : FnD) : ctxAfterReturn c0 f = match returnedType f with
+    | some r => updateContext c0 r
+    | Option.none => c0 := by
+  have hcu : contextUpdatedFirst = true := by decide
+  unfold ctxAfterReturn returnedType
+  rcases f.ret with _ | _ | r <;> simp [hcu]
+
+/-- what `_check_docstring` starts from is well-named when the module's namespace is (it is that namespace, or empty) -/
+theorem wn_initial {κ : Sym → Bool} (ns : Ctx) (hn : WN κ ns) : WN κ (initialCtx ns) := by
+  unfold initialCtx; split
+  · exact hn
+  · exact WN.nil κ
+
+theorem wn_afterReturn {κ : Sym → Bool} (ns : Ctx) (f : FnD) (hv : SigVocab κ f) (hn : WN κ ns) : WN κ (ctxStart ns f) := by
+  unfold ctxStart
+  rw [ctxAfterReturn_eq]
+  cases hr : returnedType f with
+  | none => exact wn_initial ns hn
+  | some r => exact wn_update r _ (by simp [hv.2 r hr]) (wn_initial ns hn)
+
+theorem bound_afterReturn (ns : Ctx) (f : FnD) (r : Val) (hr : returnedType f = some r) : boundIn (ctxStart ns f) r = true := by
+  unfold ctxStart
+  rw [ctxAfterReturn_eq, hr]; exact bound_update r _
+
+theorem ctxAt_cons (ctx : Ctx) (n m : Sym) (v : Val) (rest : List (Sym × Val)) :
+    ctxAt ctx n ((m, v) :: rest) = if m == n then updateContext ctx v else ctxAt (updateContext ctx v) n rest := by
+  have hcu : contextUpdatedFirst = true := by decide
+  simp [ctxAt, hcu]
+
+/-- the context in which the documented type of the parameter `n` is evaluated is well-named … -/
+theorem wn_ctxAt {κ : Sym → Bool} (n : Sym) : ∀ (anns : List (Sym × Val)) (ctx : Ctx), (∀ na ∈ anns, vocab κ na.2 = true) → WN κ ctx →
+    WN κ (ctxAt ctx n anns)
+  | [], ctx, _, hw => by simpa [ctxAt] using hw
+  | (m, v) :: rest, ctx, hv, hw => by
+    have hw' : WN κ (updateContext ctx v) := wn_update v ctx (by simp [hv (m, v) (by simp)]) hw
+    rw [ctxAt_cons]
+    split
+    · exact hw'
+    · exact wn_ctxAt n rest _ (fun na hna => hv na (by simp [hna])) hw'
+
+/-- … and binds the classes and type variables of that parameter's annotation -/
+theorem bound_ctxAt (n : Sym) (a : Val) : ∀ (anns : List (Sym × Val)) (ctx : Ctx), (anns.map (fun na => na.1)).Nodup → (n, a) ∈ anns →
+    boundIn (ctxAt ctx n anns) a = true
+  | [], _, _, h => by simp at h
+  | (m, v) :: rest, ctx, hnd, h => by
+    rw [ctxAt_cons]
+    simp only [List.map_cons, List.nodup_cons] at hnd
+    simp only [List.mem_cons, Prod.mk.injEq] at h
+    rcases h with ⟨rfl, rfl⟩ | h
+    · simp; exact bound_update a ctx
+    · have : (m == n) = false := by
+        have : m ≠ n := by
+          intro e; subst e
+          exact hnd.1 (List.mem_map.mpr ⟨(m, a), h, rfl⟩)
+        simpa using this
+      simp only [this, Bool.false_eq_true, ↓reduceIte]
+      exact bound_ctxAt n a rest _ hnd.2 h
+
+
+/-! #### the guard of `C19_partial` discharged for docstrings over the vocabulary -/
+
+/-- a documented type as it may be written: no type at all, text that is no expression, or the text of a vocabulary annotation whose
+    classes and type variables the module `ns` defines (the text does not contain `typing.`) -/
+def TypeVocab (κ : Sym → Bool) (ns : Ctx) : Option TypeText → Prop
+  | Option.none => True
+  | some t => t.expr = Option.none ∨
+      ∃ b, t.expr = some (render b) ∧ vocab κ b = true ∧ boundIn ns b = true ∧ isInfixChars typingNeedle.toList t.text.toList = false
+
+/-- the written docstring: ANY documented names, any number of entries, in any order, with or without a Returns entry — only the
+    documented types are taken from the vocabulary -/
+def DocVocab (κ : Sym → Bool) (ns : Ctx) (i : Intended) : Prop :=
+  (∀ p ∈ i.params, TypeVocab κ ns p.ty) ∧ (∀ t, i.returns = some t → TypeVocab κ ns t)
+
+theorem resolveAnn_vocab {κ : Sym → Bool} (ns : Ctx) (a : Val) (h : vocab κ a = true) : resolveAnn ns a = a := by
+  cases a <;> simp [vocab] at h <;> rfl
+
+/-- **the library's reading of a documented type gives the verdict of the author's reading**: `ctx` is a context `_check_docstring`
+    built (well-named, binding what the annotation `a` mentions), `ns` the module's namespace -/
+theorem faithful_one {κ : Sym → Bool} (ctx ns : Ctx) (a : Val) (ty : Option TypeText) (hw : WN κ ctx) (hn : WN κ ns)
+    (ha : vocab κ a = true) (hb : boundIn ctx a = true) (ht : TypeVocab κ ns ty) :
+    typeMatches a (parseDocumentedType ctx ty).meaning = typeMatches (resolveAnn ns a) (meaningIn ns ty) := by
+  rw [resolveAnn_vocab ns a ha]
+  cases ty with
+  | none => rfl
+  | some t =>
+    rcases ht with he | ⟨b, he, hvb, hbn, hneedle⟩
+    · simp only [parseDocumentedType, meaningIn, he]
+      split <;> rfl
+    · have hauthor : meaningIn ns (some t) = some b := by
+        simp only [meaningIn, he, render_roundtrip b ns hvb hn hbn]
+      rw [hauthor]
+      simp only [parseDocumentedType, hneedle, Bool.false_eq_true, ↓reduceIte, he, render_eval b ctx hvb hw]
+      by_cases hbc : boundIn ctx b = true
+      · simp only [hbc, ↓reduceIte, DT.meaning]
+      · have hbc' : boundIn ctx b = false := by simpa using hbc
+        simp only [hbc', Bool.false_eq_true, ↓reduceIte, DT.meaning]
+        -- the author's type mentions a class / type variable the signature (so far) does not: it cannot equal the annotation
+        cases hm : typeMatches a (some b) with
+        | false => simp [typeMatches]
+        | true =>
+          simp only [typeMatches, Bool.and_eq_true] at hm
+          exact absurd (bound_of_annEq ctx b a hm.2 hb) hbc
+
+
+/-- **the guard `ctxFaithful` holds** for every signature over the vocabulary and every written docstring whose documented types are
+    taken from it, in a module that defines the names used: it is a theorem about `_update_context` + `eval`, not an assumption -/
+theorem vocab_ctx_faithful {κ : Sym → Bool} (ns : Ctx) (f : FnD) (i : Intended) (hs : SigOk f) (hv : SigVocab κ f)
+    (hn : WN κ ns) (hd : DocVocab κ ns i) : ctxFaithful ns f i = true := by
+  unfold ctxFaithful
+  simp only [Bool.and_eq_true, List.all_eq_true, Bool.or_eq_true, bne_iff_ne, ne_eq, beq_iff_eq]
+  refine ⟨?_, ?_⟩
+  · intro p hp na hna
+    by_cases hname : na.1 = p.name
+    · right
+      have hmem : (p.name, na.2) ∈ f.anns := by rw [← hname]; exact hna
+      exact faithful_one _ ns na.2 p.ty (wn_ctxAt p.name f.anns _ hv.1 (wn_afterReturn ns f hv hn)) hn (hv.1 na hna)
+        (bound_ctxAt p.name na.2 f.anns _ hs hmem) (hd.1 p hp)
+    · left; exact hname
+  · cases hr : returnedType f with
+    | none => simp
+    | some r =>
+      cases hi : i.returns with
+      | none => simp
+      | some t =>
+        cases t with
+        | none => simp
+        | some t =>
+          simp only [beq_iff_eq]
+          exact faithful_one _ ns r (some t) (wn_afterReturn ns f hv hn) hn (hv.2 r hr) (bound_afterReturn ns f r hr) (hd.2 (some t) hi)
+
+theorem parse_clean {κ : Sym → Bool} (ctx ns : Ctx) (ty : Option TypeText) (hw : WN κ ctx) (ht : TypeVocab κ ns ty) :
+    (parseDocumentedType ctx ty).clean = true := by
+  cases ty with
+  | none => rfl
+  | some t =>
+    rcases ht with he | ⟨b, he, hvb, _, hneedle⟩
+    · simp only [parseDocumentedType, he]; split <;> rfl
+    · simp only [parseDocumentedType, hneedle, Bool.false_eq_true, ↓reduceIte, he, render_eval b ctx hvb hw]
+      cases boundIn ctx b <;> rfl
+
+/-- **C19 for the text as written, at every nesting depth** (no guard on the evaluation context, no bound on the depth of the types):
+    for every signature whose annotations lie in the vocabulary and every written docstring — any names, any number of entries, a
+    Returns entry or none, typed or not — whose documented types are vocabulary texts over names the module defines: when docstring
+    checking applies, decoration succeeds iff the docstring AS WRITTEN is consistent with the signature in the module's namespace,
+    and otherwise raises PedanticDocstringException.  (Remaining guard: `docstring_parser` returned what was written, `rawOf i`.) -/
+theorem C19_vocab {κ : Sym → Bool} (req : Bool) (f : FnD) (i : Intended) (ns : Ctx) (hs : SigOk f) (hv : SigVocab κ f)
+    (hn : WN κ ns) (hd : DocVocab κ ns i) (happ : Applies req (specDoc ns f i)) :
+    (decorateRaw ⟨true, true⟩ req ns f (rawOf i) = .wrapper ↔ Consistent (resolveSig ns f) (specDoc ns f i)) ∧
+    (decorateRaw ⟨true, true⟩ req ns f (rawOf i) = .wrapper ∨ decorateRaw ⟨true, true⟩ req ns f (rawOf i) = .raised docExc) := by
+  refine C19_partial req f i ns hs (vocab_ctx_faithful ns f i hs hv hn hd) ?_ happ
+  refine ⟨?_, ?_⟩
+  · intro p hp
+    simp only [annotate, rawOf, List.mem_map] at hp
+    obtain ⟨q, hq, rfl⟩ := hp
+    exact parse_clean _ ns q.ty (wn_ctxAt q.name f.anns _ hv.1 (wn_afterReturn ns f hv hn)) (hd.1 q hq)
+  · intro n ty hret
+    simp only [annotate, rawOf, Option.map_map, Option.map_eq_some_iff] at hret
+    obtain ⟨t, hi, hnt⟩ := hret
+    cases t with
+    | none =>
+      simp only [Function.comp, Prod.mk.injEq] at hnt
+      obtain ⟨rfl, rfl⟩ := hnt
+      exact ⟨rfl, fun h => absurd h (by decide)⟩
+    | some t =>
+      simp only [Function.comp, Prod.mk.injEq] at hnt
+      obtain ⟨rfl, rfl⟩ := hnt
+      refine ⟨parse_clean _ ns (some t) (wn_afterReturn ns f hv hn) (hd.2 (some t) hi), fun _ => ?_⟩
+      simp only [parseDocumentedType]
+      split
+      · rfl
+      · split <;> (try rfl) <;> (split <;> rfl)
+
+
+/-- … in particular **a wrong documented type is rejected at every nesting depth**: if the entry of an annotated parameter documents a
+    vocabulary type that is not equal to the annotation — however deep inside the type the difference sits — decoration raises
+    PedanticDocstringException (whatever else the docstring says) -/
+theorem vocab_wrong_type_rejected {κ : Sym → Bool} (req : Bool) (f : FnD) (i : Intended) (ns : Ctx) (hs : SigOk f) (hv : SigVocab κ f)
+    (hn : WN κ ns) (hd : DocVocab κ ns i) (p : RawParam) (hp : p ∈ i.params) (a b : Val) (t : TypeText)
+    (ha : (p.name, a) ∈ f.anns) (hty : p.ty = some t) (he : t.expr = some (render b)) (hvb : vocab κ b = true) (hbn : boundIn ns b = true)
+    (hne : annEq a b = false) :
+    decorateRaw ⟨true, true⟩ req ns f (rawOf i) = .raised docExc := by
+  have happ : Applies req (specDoc ns f i) := by
+    right
+    simp only [specDoc, ne_eq, List.map_eq_nil_iff]
+    intro h; rw [h] at hp; simp at hp
+  obtain ⟨hiff, hor⟩ := C19_vocab req f i ns hs hv hn hd happ
+  rcases hor with h | h
+  · exfalso
+    obtain ⟨_, _, h3, _⟩ := hiff.mp h
+    obtain ⟨na, hna, hname, hm⟩ := h3 ⟨p.name, meaningIn ns p.ty⟩ (by
+      simp only [specDoc, List.mem_map]; exact ⟨p, hp, rfl⟩)
+    simp only [resolveSig, List.mem_map] at hna
+    obtain ⟨na0, hna0, rfl⟩ := hna
+    simp only at hname hm
+    -- names are distinct: `na0` is the annotation `a` of `p.name`
+    have : na0.2 = a := by
+      have hnd : (f.anns.map (fun na => na.1)).Nodup := hs
+      have := key_unique f.anns hnd na0 (p.name, a) hna0 ha hname
+      rw [this]
+    rw [this, resolveAnn_vocab ns a (hv.1 _ ha), hty] at hm
+    simp only [meaningIn, he, render_roundtrip b ns hvb hn hbn, typeMatches, hne, Bool.false_and] at hm
+    exact absurd hm (by decide)
+  · exact h
+
+/-! non-vacuity of `C19_vocab`: `def f(a: Dict[str, List[Optional[My]]], b: Tuple[T, list[int]]) -> Union[int, Set[My], None]` in a module
+    defining `class My` (identifier 1000) and `T = TypeVar('T')` (1001), documented canonically -/
+def exKappa : Sym → Bool := fun n => n == 1000
+def exNs : Ctx := [(1000, .cls 1000), (1001, .tvar 1001)]
+def exDeepA : Val := .talias .Dict [.cls sStr, .talias .List [.union true [.cls 1000, .cls sNoneType]]]
+def exDeepB : Val := .talias .Tuple [.tvar 1001, .balias sList [.cls sInt]]
+def exDeepR : Val := .union true [.cls sInt, .talias .Set [.cls 1000], .cls sNoneType]
+def exDeepFn : FnD := ⟨[(2000, exDeepA), (2001, exDeepB)], some (some exDeepR), .text⟩
+def exDeepDoc : Intended :=
+  ⟨[⟨2001, some ⟨"Tuple[T, list[int]]", some (render exDeepB)⟩⟩, ⟨2000, some ⟨"Dict[str, List[Union[My, None]]]", some (render exDeepA)⟩⟩],
+   some (some ⟨"Union[int, Set[My], None]", some (render exDeepR)⟩)⟩
+
+theorem exNs_wn : WN exKappa exNs :=
+  ((WN.nil exKappa).cons 1001 (.tvar 1001) rfl (by decide)).cons 1000 (.cls 1000) rfl (by decide)
+
+example : SigOk exDeepFn ∧ SigVocab exKappa exDeepFn ∧ DocVocab exKappa exNs exDeepDoc ∧ Applies false (specDoc exNs exDeepFn exDeepDoc) ∧
+    decorateRaw ⟨true, true⟩ false exNs exDeepFn (rawOf exDeepDoc) = .wrapper := by
+  refine ⟨by unfold SigOk; decide, ⟨by decide, ?_⟩, ⟨?_, ?_⟩, by decide, by decide⟩
+  · intro r hr; cases hr; decide
+  · intro p hp
+    simp only [exDeepDoc, List.mem_cons, List.mem_nil_iff, or_false] at hp
+    rcases hp with rfl | rfl
+    · exact Or.inr ⟨exDeepB, rfl, by decide, by decide, by decide⟩
+    · exact Or.inr ⟨exDeepA, rfl, by decide, by decide, by decide⟩
+  · intro t ht
+    cases ht
+    exact Or.inr ⟨exDeepR, rfl, by decide, by decide, by decide⟩
+
+/-! #### names that are not the `__name__` of the object they denote: type aliases -/
+
+/-- `class My`, `Alias = My`, `def f(p: Alias) -> None` documented `p (Alias)`: in the module's namespace (`My` ↦ the class, `Alias` ↦ the
+    same class) the written docstring is consistent with the signature -/
+def aliasNs : Ctx := [(1000, .cls 1000), (1001, .cls 1000)]
+def aliasFn : FnD := ⟨[(2000, .cls 1000)], some Option.none, .text⟩
+def aliasDoc : Intended := ⟨[⟨2000, some ⟨"Alias", some (.name 1001)⟩⟩], Option.none⟩
+/-- `IntList = List[int]`, `def f(p: IntList) -> Optional[IntList]` documented `p (IntList)` / `Returns: Optional[IntList]` -/
+def aliasGenNs : Ctx := [(1000, .cls 1000), (1003, .talias .List [.cls sInt])]
+def aliasGenFn : FnD := ⟨[(2000, .talias .List [.cls sInt])], some (some (.union true [.talias .List [.cls sInt], .cls sNoneType])), .text⟩
+def aliasGenDoc : Intended :=
+  ⟨[⟨2000, some ⟨"IntList", some (.name 1003)⟩⟩], some (some ⟨"Optional[IntList]", some (.sub (.name 25) [.name 1003])⟩)⟩
+/-- `U = TypeVar('T2')` (identifier 1004, `__name__` 1005), `def f(p: U) -> None` documented `p (U)` -/
+def aliasTvNs : Ctx := [(1004, .tvar 1005)]
+def aliasTvFn : FnD := ⟨[(2000, .tvar 1005)], some Option.none, .text⟩
+def aliasTvDoc : Intended := ⟨[⟨2000, some ⟨"U", some (.name 1004)⟩⟩], Option.none⟩
+/-- `Wrong = Other`: `def f(p: Alias)` documented `p (Wrong)` -/
+def aliasWrongNs : Ctx := [(1000, .cls 1000), (1001, .cls 1000), (1002, .cls 1002), (1006, .cls 1002)]
+def aliasWrongDoc : Intended := ⟨[⟨2000, some ⟨"Wrong", some (.name 1006)⟩⟩], Option.none⟩
+
+/-- **repaired (finding docstringAliasNotResolved)**: the evaluation context starts as the namespace of the defining module (generated
+    flag `contextSeededWithModuleNames`), so a documented alias is read as the author reads it: the written docstring is consistent,
+    the context is faithful, the model accepts — for an alias of a class, of a generic, for a type variable bound under another
+    identifier; and an alias of ANOTHER type is inconsistent and rejected -/
+theorem fixed_alias :
+    contextSeededWithModuleNames = true ∧
+    (ctxFaithful aliasNs aliasFn aliasDoc = true ∧ Consistent (resolveSig aliasNs aliasFn) (specDoc aliasNs aliasFn aliasDoc) ∧
+      decorateRaw ⟨true, true⟩ false aliasNs aliasFn (rawOf aliasDoc) = .wrapper) ∧
+    (ctxFaithful aliasGenNs aliasGenFn aliasGenDoc = true ∧ Consistent (resolveSig aliasGenNs aliasGenFn) (specDoc aliasGenNs aliasGenFn aliasGenDoc) ∧
+      decorateRaw ⟨true, true⟩ false aliasGenNs aliasGenFn (rawOf aliasGenDoc) = .wrapper) ∧
+    (ctxFaithful aliasTvNs aliasTvFn aliasTvDoc = true ∧ Consistent (resolveSig aliasTvNs aliasTvFn) (specDoc aliasTvNs aliasTvFn aliasTvDoc) ∧
+      decorateRaw ⟨true, true⟩ false aliasTvNs aliasTvFn (rawOf aliasTvDoc) = .wrapper) ∧
+    (¬ Consistent (resolveSig aliasWrongNs aliasFn) (specDoc aliasWrongNs aliasFn aliasWrongDoc) ∧
+      decorateRaw ⟨true, true⟩ false aliasWrongNs aliasFn (rawOf aliasWrongDoc) = .raised docExc) := by decide
+
+/-- **negation witness on the shape before the repair** (`context = {}`): `_update_context` binds the class under its `__name__` (`My`)
+    only, `eval("Alias", …)` raises NameError, and the consistent docstring is rejected — for each of the three kinds of alias -/
+theorem alias_breaks_unseeded_context :
+    decorateRawFrom [] ⟨true, true⟩ false aliasFn (rawOf aliasDoc) = .raised docExc ∧
+    decorateRawFrom [] ⟨true, true⟩ false aliasGenFn (rawOf aliasGenDoc) = .raised docExc ∧
+    decorateRawFrom [] ⟨true, true⟩ false aliasTvFn (rawOf aliasTvDoc) = .raised docExc := by decide
+
+/-! #### the complement of the guard that remains: a name of the module shadowed by the `__name__` of a part of an annotation -/
+
+/-- the module binds `My` to one class (identifier 1000 ↦ class 1002), the annotation is ANOTHER class whose `__name__` is `My` (a class
+    local to a function): the `__name__`s found in the annotations are bound on top of the module's names, the documented `My` is read
+    as the annotation's class and accepted, while in the MODULE's namespace it denotes the other class.  (For a class local to a
+    function the library's reading is the author's; the specification knows the module's namespace only.) -/
+def shadowNs : Ctx := [(1000, .cls 1002)]
+def shadowFn : FnD := ⟨[(2000, .cls 1000)], some Option.none, .text⟩
+def shadowDoc : Intended := ⟨[⟨2000, some ⟨"My", some (.name 1000)⟩⟩], Option.none⟩
+
+theorem shadowed_name_breaks_context :
+    ctxFaithful shadowNs shadowFn shadowDoc = false ∧
+    ¬ Consistent (resolveSig shadowNs shadowFn) (specDoc shadowNs shadowFn shadowDoc) ∧
+    decorateRaw ⟨true, true⟩ false shadowNs shadowFn (rawOf shadowDoc) = .wrapper := by decide
+
+/-- so the statement of `C19_partial` without the context guard fails (and `WN` cannot be dropped from `C19_vocab`) -/
+theorem C19_partial_needs_faithful_context :
+    ¬ (∀ (req : Bool) (f : FnD) (i : Intended) (ns : Ctx), SigOk f → Evaluable (annotate ns f (rawOf i)) → Applies req (specDoc ns f i) →
+      (decorateRaw ⟨true, true⟩ req ns f (rawOf i) = .wrapper ↔ Consistent (resolveSig ns f) (specDoc ns f i))) := by
+  intro h
+  have := h false shadowFn shadowDoc shadowNs (by unfold SigOk; decide)
+    ⟨by decide, by intro n ty h; simp [annotate, rawOf, shadowDoc] at h⟩ (by decide)
+  exact absurd (this.mp shadowed_name_breaks_context.2.2) shadowed_name_breaks_context.2.1
 
 /-! ### the class path -/
 
@@ -1169,6 +2124,143 @@ example : ¬ Applies false (sdocOf exFn ⟨[], Option.none⟩) ∧
 theorem for_all_methods_checks_every_own_method :
     forAllMethodsEarlyReturns = [] ∧ forAllMethodsDecoratesEveryFunction = true ∧ plainClassShortcutUsesPedantic = true ∧
     classShortcutUsesRequireDocstring = true := by decide
+
+/-! ### every function the class holds: methods, static and class methods, the accessors of properties -/
+
+/-- **which members reach the decorator** (generated from class_decorators.py on every run): the function branch of the loop tests
+    `isinstance(attr_value, (types.FunctionType, types.MethodType))` — plain functions, static methods (`getattr` gives the function)
+    and class methods (`getattr` gives a bound method) —, and the property branch passes EACH accessor — getter, setter and deleter —
+    through `decorator` and stores it, decorated, in the property the class gets back.  A rewrite of that branch that leaves one
+    accessor out (say `prop.getter(decorator(fget))` / `prop.setter(decorator(fset))` and nothing for `fdel`) is translated to a
+    shorter list and this theorem does not re-prove. -/
+theorem for_all_methods_decorates_every_member : ∀ r : Role, roleDecorated r = true := by
+  intro r; cases r <;> decide
+
+theorem ownDecorated_all (ms : List Member) : ownDecorated roleDecorated ms = ms.map (fun m => m.2) := by
+  unfold ownDecorated
+  rw [List.filter_eq_self.mpr]
+  intro m _
+  exact for_all_methods_decorates_every_member m.1
+
+/-- `pedantic_class_require_docstring` on a class given by ALL the functions it holds, in whatever role: the class decoration
+    succeeds iff the docstring of every one of them is consistent with its signature — no role is exempt -/
+theorem class_members_accept_iff (env : Env) (hen : env.enabled = true) (hp : env.parserInstalled = true)
+    (ms : List Member) (hs : ∀ m ∈ ms, SigOk m.2.1) :
+    decorateMembers env false ms = .wrapper ↔ ∀ m ∈ ms, Consistent m.2.1 (sdocOf m.2.1 m.2.2) := by
+  have hearly : forAllMethodsEarlyReturns.isEmpty = true := by decide
+  unfold decorateMembers decorateMembersWith
+  simp only [hen, hearly, Bool.not_true, Bool.false_eq_true, ↓reduceIte, ownDecorated_all]
+  rw [class_accepts_iff env hen hp (ms.map (fun m => m.2)) (by
+    intro u hu
+    obtain ⟨m, hm, rfl⟩ := List.mem_map.mp hu
+    exact hs m hm)]
+  constructor
+  · intro h m hm; exact h m.2 (List.mem_map.mpr ⟨m, hm, rfl⟩)
+  · intro h u hu
+    obtain ⟨m, hm, rfl⟩ := List.mem_map.mp hu
+    exact h m hm
+
+/-- the same for `pedantic_class`: every function of the class to which docstring checking applies is consistent -/
+theorem class_members_plain_accept_iff (env : Env) (hen : env.enabled = true) (hp : env.parserInstalled = true)
+    (ms : List Member) (hs : ∀ m ∈ ms, SigOk m.2.1) :
+    decorateMembers env true ms = .wrapper ↔
+      ∀ m ∈ ms, Applies false (sdocOf m.2.1 m.2.2) → Consistent m.2.1 (sdocOf m.2.1 m.2.2) := by
+  have hearly : forAllMethodsEarlyReturns.isEmpty = true := by decide
+  unfold decorateMembers decorateMembersWith
+  simp only [hen, hearly, Bool.not_true, Bool.false_eq_true, ↓reduceIte, ownDecorated_all]
+  rw [class_plain_accepts_iff env hen hp (ms.map (fun m => m.2)) (by
+    intro u hu
+    obtain ⟨m, hm, rfl⟩ := List.mem_map.mp hu
+    exact hs m hm)]
+  constructor
+  · intro h m hm; exact h m.2 (List.mem_map.mpr ⟨m, hm, rfl⟩)
+  · intro h u hu
+    obtain ⟨m, hm, rfl⟩ := List.mem_map.mp hu
+    exact h m hm
+
+/-- `def x(self) -> int` documented `Returns: int`, and a deleter `def x(self) -> None` WITHOUT a docstring -/
+def exGetter : Member := (.fget, ⟨[], some (some (.cls sInt)), .text⟩, ⟨[], some (2, .parsed (.cls sInt))⟩)
+def exDeleterNoDoc : Member := (.fdel, ⟨[], some Option.none, .none⟩, ⟨[], Option.none⟩)
+
+/-- non-vacuity, and why every accessor has to be in the list: the class whose property has a consistent getter and a deleter without
+    a docstring is rejected by `pedantic_class_require_docstring`; a `for_all_methods` that did not hand the deleter to the decorator
+    would accept it (the deleter's docstring is never looked at) -/
+example : decorateMembers ⟨true, true⟩ false [exGetter, exDeleterNoDoc] = .raised (.raised "PedanticDocstringException") ∧
+    decorateMembers ⟨true, true⟩ false [exGetter] = .wrapper ∧
+    decorateMembersWith (fun r => r != .fdel) ⟨true, true⟩ false [exGetter, exDeleterNoDoc] = .wrapper ∧
+    ¬ Consistent exDeleterNoDoc.2.1 (sdocOf exDeleterNoDoc.2.1 exDeleterNoDoc.2.2) := by decide
+
+/-! ### the docstring that is checked is the function's own, and every execution of a `def` is checked -/
+
+/-- generated from decorated_function.py: the docstring handed to `docstring_parser` is `func.__doc__` and `raw_doc` is
+    `self._func.__doc__` — what the model calls `f.rawDoc` / `d`.  (`inspect.getdoc(func)` would make a method WITHOUT a docstring
+    borrow the one of the method it overrides: "a missing docstring — when required — raises" would fail for overriding methods.) -/
+theorem docstring_is_the_functions_own : parsedDocstringIsOwnDoc = true ∧ rawDocIsOwnDoc = true := by decide
+
+/-- generated from fn_deco_pedantic.py / check_docstring.py / decorated_function.py: nothing there survives a decoration (no
+    module-level mutable binding, no `global` / `nonlocal`, no cache, no mutable default, no attribute set on a function) — the
+    premise of `decorateSeq` (each decoration is judged by `decorateAs` on its own function) -/
+theorem decoration_keeps_no_state : decorationState = [] := by decide
+
+/-- does the decorator spelled `k` require a docstring -/
+def reqOf : DecoKind → Bool
+  | .pedantic => false
+  | _ => true
+
+theorem decorateAs_eq (env : Env) (k : DecoKind) (f : FnD) (d : Doc) : decorateAs env k f d = decorator env (reqOf k) f d := by
+  have hreq : requireShortcutFlag = true := by decide
+  cases k <;> simp [decorateAs, decoratorRequire, reqOf, hreq]
+
+/-- **every execution of a `def` is checked**: for every sequence of decorations made one after the other — the same `def` executed
+    again and again with annotations that evaluate differently each time (a factory, a loop, a reloaded module) or different ones —
+    all of them come through iff EACH function to which checking applies has a docstring consistent with ITS signature; what was
+    decorated before plays no part. -/
+theorem repeated_decoration_accepts_iff (env : Env) (hen : env.enabled = true) (hp : env.parserInstalled = true) :
+    ∀ (us : List (DecoKind × FnD × Doc)), (∀ u ∈ us, SigOk u.2.1) →
+      (decorateSeq env us = .wrapper ↔
+        ∀ u ∈ us, Applies (reqOf u.1) (sdocOf u.2.1 u.2.2) → Consistent u.2.1 (sdocOf u.2.1 u.2.2)) := by
+  intro us
+  induction us with
+  | nil => intro _; simp [decorateSeq, hen]
+  | cons u rest ih =>
+    intro hs
+    obtain ⟨k, f, d⟩ := u
+    have hsf : SigOk f := hs (k, f, d) (by simp)
+    have ih' := ih (fun u hu => hs u (by simp [hu]))
+    simp only [decorateSeq, hen, Bool.not_true, Bool.false_eq_true, ↓reduceIte, decorateAs_eq, List.mem_cons, forall_eq_or_imp]
+    by_cases happ : Applies (reqOf k) (sdocOf f d)
+    · have hiff := accepts_iff_consistent env (reqOf k) f d hen hp hsf happ
+      cases hdec : decorator env (reqOf k) f d with
+      | original => exact absurd hdec (decorator_enabled_ne_original env (reqOf k) f d hen)
+      | wrapper => simp [ih', hiff.mp hdec]
+      | raised o =>
+        have : ¬ Consistent f (sdocOf f d) := fun hc => by rw [hiff.mpr hc] at hdec; cases hdec
+        simp [this, happ]
+    · have hk : reqOf k = false := by
+        cases hr : reqOf k
+        · rfl
+        · exact absurd (Or.inl hr) happ
+      rw [hk] at happ ⊢
+      rcases not_applies_accepted env f d happ with h | h
+      · simp [h, ih', happ]
+      · exact absurd h (decorator_enabled_ne_original env false f d hen)
+
+/-- … in particular an inconsistent docstring is rejected however many consistent executions of the same `def` came before it -/
+theorem later_execution_rejected (env : Env) (hen : env.enabled = true) (hp : env.parserInstalled = true)
+    (pre post : List (DecoKind × FnD × Doc)) (u : DecoKind × FnD × Doc) (hs : ∀ v ∈ pre ++ u :: post, SigOk v.2.1)
+    (happ : Applies (reqOf u.1) (sdocOf u.2.1 u.2.2)) (hbad : ¬ Consistent u.2.1 (sdocOf u.2.1 u.2.2)) :
+    decorateSeq env (pre ++ u :: post) ≠ .wrapper := by
+  intro h
+  exact hbad ((repeated_decoration_accepts_iff env hen hp _ hs).mp h u (by simp) happ)
+
+/-- `def f(p: tp) -> None` documented `p (int)`, executed with `tp = int` and then with `tp = str` -/
+example : decorateSeq ⟨true, true⟩
+    [(.pedantic, ⟨[(1, .cls sInt)], some Option.none, .text⟩, ⟨[⟨1, .parsed (.cls sInt)⟩], Option.none⟩),
+     (.pedantic, ⟨[(1, .cls sStr)], some Option.none, .text⟩, ⟨[⟨1, .parsed (.cls sInt)⟩], Option.none⟩)]
+      = .raised (.raised "PedanticDocstringException") ∧
+    decorateSeq ⟨true, true⟩
+    [(.pedantic, ⟨[(1, .cls sInt)], some Option.none, .text⟩, ⟨[⟨1, .parsed (.cls sInt)⟩], Option.none⟩),
+     (.pedantic, ⟨[(1, .cls sInt)], some Option.none, .text⟩, ⟨[⟨1, .parsed (.cls sInt)⟩], Option.none⟩)] = .wrapper := by decide
 
 /-! ### the source has the shape the model assumes (flags and constants read by the translator) -/
 
